@@ -135,8 +135,10 @@ def _ttr(E, name, fitted, has_reg=True):
 
 def _user_transformer(E):
     """a reciprocal transformer object supplied by the caller (any subclass of BaseReciprocalTransformer)"""
-    return models.new_estimator(E, "user_tr", "UserReciprocalTransformer", ("fit", "transform", "get_fct_inv", "get_params", "set_params"),
-                                bases=("BaseEstimator", "TransformerMixin", "BaseReciprocalTransformer"))
+    t = models.new_estimator(E, "user_tr", "UserReciprocalTransformer", ("fit", "transform", "get_fct_inv", "get_params", "set_params"),
+                             bases=("BaseEstimator", "TransformerMixin", "BaseReciprocalTransformer"))
+    t.fields["$reciprocal"] = True
+    return t
 
 
 @contract(T + "::_common_get_transform", "C13")
@@ -206,6 +208,77 @@ class TtrFit(Contract):
                 z3.BoolVal(t["X"] is a.X and isinstance(yt, NdArr)), z(yt.shape[0]) == n,
                 E.forall_range([(0, n)], lambda r: yt.get(r) == E.call(f, [old["y"].get(r)], {})))
             out["weights_passed_on"] = z3.BoolVal(t["w"] is a.sample_weight)
+        return out
+
+
+@contract(T + "::TransformedTargetClassifier2.fit", "C13")
+class TtcFit(Contract):
+    """with ANY reciprocal transformer (an opaque object obeying the protocol) and with or without sample weights: the transformer kept is
+    a fitted clone of the caller's, the classifier kept is a clone of the caller's trained ONCE on the features and the TRANSFORMED
+    labels, with the weights when given"""
+    variants = [False, True]
+
+    def setup(self, E, has_w):
+        n = E.size("n", 1)
+        clf = models.new_estimator(E, "clf", "Classifier", ("fit", "predict", "predict_proba", "decision_function", "get_params", "set_params"))
+        o = E.new_obj(T + "::TransformedTargetClassifier2", dict(classifier=clf, transformer=_user_transformer(E)))
+        return dict(self=o, X=E.nd("X", (n, E.size("d", 1))), y=E.nd("y", (n,), "int"), sample_weight=E.nd("w", (n,)) if has_w else None)
+
+    def old(self, E, a):
+        return dict(tl=len(E.trace), wy=a.y.cell.writes, wX=a.X.cell.writes)
+
+    def ensures(self, E, a, res, old, untransformed=False):
+        s = a.self
+        tr_, clf_ = s.fields.get("transformer_"), s.fields.get("classifier_")
+        ev = E.trace[old["tl"]:]
+        out = {"returns_self": z3.BoolVal(res is s),
+               "keeps_a_fitted_clone_of_the_transformer": z3.BoolVal(
+                   isinstance(tr_, Obj) and tr_.fields.get("$clone_of") is s.fields["transformer"]
+                   and [t for t in ev if t["op"] == "fit" and t["obj"] is tr_ and t["y"] is a.y and t["w"] is a.sample_weight] != [])}
+        rts = [t for t in ev if t["op"] == "rtransform" and t["obj"] is tr_ and t["y"] is a.y]
+        fits = [t for t in ev if t["op"] == "fit" and t["obj"] is clf_]
+        ok = isinstance(clf_, Obj) and clf_.fields.get("$clone_of") is s.fields["classifier"] and len(fits) == 1 and len(rts) == 1
+        out["one_fit_of_a_clone_of_the_classifier"] = z3.BoolVal(ok)
+        if ok:
+            want_y = a.y if untransformed else rts[0]["result"]
+            out["trained_on_the_features_and_the_transformed_labels"] = z3.BoolVal(fits[0]["X"] is rts[0]["X"] and rts[0]["X"] is a.X and fits[0]["y"] is want_y)
+            out["weights_passed_on_when_given"] = z3.BoolVal(fits[0]["w"] is a.sample_weight)
+        out["features_and_labels_not_written"] = z3.BoolVal(a.X.cell.writes == old["wX"] and a.y.cell.writes == old["wy"])
+        return out
+
+    canaries = {"trained_on_the_untransformed_labels": lambda E, a, res, old: TtcFit().ensures(E, a, res, old, untransformed=True).get(
+        "trained_on_the_features_and_the_transformed_labels", z3.BoolVal(True))}
+
+
+@contract(T + "::TransformedTargetClassifier2._apply", "C13")
+@query_frame("self")
+class TtcApply(Contract):
+    """predict / predict_proba / decision_function with ANY reciprocal transformer: the output of the fitted classifier on the given rows,
+    taken back to the original labels by the INVERSE of the fitted transformer (asked from it at that moment)"""
+    variants = ["predict", "predict_proba", "decision_function"]
+
+    def setup(self, E, method):
+        clf = models.new_estimator(E, "clf_fitted", "Classifier", ("fit", "predict", "predict_proba", "decision_function"), fitted=True)
+        tr = _user_transformer(E)
+        tr.fields["$fitted"] = True
+        o = E.new_obj(T + "::TransformedTargetClassifier2", dict(classifier=None, transformer=None, classifier_=clf, transformer_=tr))
+        return dict(self=o, X=E.nd("X", (E.size("n", 0), E.size("d", 1))), method=method)
+
+    def old(self, E, a):
+        return dict(tl=len(E.trace))
+
+    def ensures(self, E, a, res, old):
+        s = a.self
+        ev = E.trace[old["tl"]:]
+        tr_, clf_ = s.fields["transformer_"], s.fields["classifier_"]
+        calls = [t for t in ev if t["op"] == a.method and t["obj"] is clf_]
+        invs = [t for t in ev if t["op"] == "get_fct_inv" and t["obj"] is tr_]
+        ok = len(calls) == 1 and calls[0]["X"] is a.X and len(invs) == 1
+        out = {"one_call_of_the_method_on_the_given_rows_and_one_inverse_asked_from_the_fitted_transformer": z3.BoolVal(ok)}
+        if ok:
+            back = [t for t in ev if t["op"] == "rtransform" and t["obj"] is invs[0]["result"]]
+            out["result_is_the_classifiers_output_taken_back_by_the_inverse_transformer"] = z3.BoolVal(
+                len(back) == 1 and back[0]["y"] is calls[0]["result"] and res is back[0]["result"])
         return out
 
 
